@@ -11,3 +11,4 @@ import Smoke.ScanNoPanic
 import Smoke.ExpParse
 import Smoke.CodeScan
 import Smoke.Eval
+import Smoke.Full
